@@ -11,7 +11,7 @@
 (***************************************************************************)
 EXTENDS TSGSyntax, Json, IOUtils
 
-CONSTANTS NRandom, SinglePer, NSingle     \* single-gap variations for the first NSingle ASTs of the pool
+CONSTANTS NRandom, SinglePer, Stride, NSingle     \* single-gap variations for the first NSingle ASTs of the pool
 
 Asts == ndJsonDeserialize(IOEnv.ASTS)       \* [id, prog] with integer loc tags
 PoolFile == JsonDeserialize(IOEnv.POOL)     \* [must, may, quote, backslash, nl, tab, cr]
@@ -33,7 +33,7 @@ AllGaps == [i \in 1..Len(Asts) |-> NumGaps(AllItems[i])]
 PoolSize == IF Len(Pool.must) > Len(Pool.may) THEN Len(Pool.must) ELSE Len(Pool.may)
 Variants(i) ==
   {<<"canonical", 0, 0>>}
-  \cup (IF i <= NSingle THEN {<<"single", g, ((g * 5 + j * 7) % PoolSize) + 1>> : g \in 1..AllGaps[i], j \in 1..SinglePer} ELSE {})
+  \cup (IF i <= NSingle THEN {<<"single", g, ((g * 5 + j * 7) % PoolSize) + 1>> : g \in {x \in 1..AllGaps[i] : x % Stride = i % Stride}, j \in 1..SinglePer} ELSE {})
   \cup {<<"random", k, 0>> : k \in 1..NRandom}
 
 Init == ai \in 1..Len(Asts) /\ variant \in Variants(ai) /\ phase = "render"
